@@ -233,6 +233,9 @@ pub struct Model {
     pub offsets: (usize, usize),
     pub jit: Option<Compiled>,
     pub cl: Option<Compiled>,
+    /// fixed-metadata VM: bytes that programs stored in the VM's own buffer since it was last
+    /// rebuilt (construction, successful set_program) - the one documented carry-over between executions
+    pub meta: BTreeMap<usize, u8>,
 }
 
 #[derive(Clone, Copy, PartialEq, Eq, Debug)]
@@ -245,7 +248,7 @@ pub enum Pred {
 
 impl Model {
     pub fn fresh(pid: Option<usize>, doff: usize, eoff: usize) -> Model {
-        Model { prog: pid, verifier: V_DEFAULT, helpers: BTreeMap::new(), calc: None, offsets: (doff, eoff), jit: None, cl: None }
+        Model { prog: pid, verifier: V_DEFAULT, helpers: BTreeMap::new(), calc: None, offsets: (doff, eoff), jit: None, cl: None, meta: BTreeMap::new() }
     }
     pub fn compiled(&self, e: Engine) -> &Option<Compiled> {
         match e {
@@ -467,6 +470,7 @@ enum Stop {
 
 type Step<T> = Result<T, Stop>;
 
+#[derive(Clone)]
 struct ExecObs {
     outcome: Outcome,
     pkt_after: Vec<u8>,
@@ -803,6 +807,12 @@ impl<'s> Runner<'s> {
                 if plen < prog.min_pkt {
                     return None;
                 }
+                if prog.p1 < 0 && engine == Engine::Interp {
+                    // a negative index register: the interpreter's plain `+` wraps in release builds and
+                    // panics where overflow checks are compiled in (as here). Whether it may panic is
+                    // C05's business; only the compiled engines are judged on this variant.
+                    return None;
+                }
                 let mut word = 0u64;
                 for k in (0..prog.w as usize).rev() {
                     word = (word << 8) | self.sc.packets[pkt][idx + k] as u64;
@@ -1011,6 +1021,26 @@ impl<'s> Runner<'s> {
                 }
             }
         }
+        // A byte that a program stored in the fixed-metadata buffer since the last successful load
+        // is still there (the carry-over C10 itself names): the fresh VM's 0 becomes that byte.
+        if self.sc.progs[pid].class == Class::MetaRead {
+            if let Some(b) = m.meta.get(&(self.sc.progs[pid].p0 as usize)) {
+                let tagv = self.sc.progs[pid].tag as u64;
+                // (C10 allows this dependence, it does not demand it: the fresh VM's answer stays acceptable)
+                let mut extra = Vec::new();
+                for r in refs.iter() {
+                    if r.1.outcome == Outcome::Ok(tagv) {
+                        let mut o = r.1.clone();
+                        o.outcome = Outcome::Ok(((*b as u64) << 8) | tagv);
+                        extra.push((format!("{}, with the byte this program stored in an earlier execution", r.0), o));
+                    }
+                }
+                refs.extend(extra);
+                self.counters.inc("meta_read_of_stored_byte");
+            } else {
+                self.counters.inc("meta_read_of_untouched_byte");
+            }
+        }
         // --- the history VM ------------------------------------------------------------------------
         guard::mark_phase(guard::PHASE_SUT);
         self.restore_buffers(pkt, mb);
@@ -1020,6 +1050,16 @@ impl<'s> Runner<'s> {
         self.restore_buffers(pkt, mb);
         self.log_obs(tag, engine, Some(pid), &obs);
         self.t(|| format!("    {}({}, pkt#{}, mb#{}) -> {}   [expected {}]", tag, engine.name(), pkt, mb, obs.outcome.short(), refs.iter().map(|r| r.1.outcome.short()).collect::<Vec<_>>().join(" or ")));
+        if self.sc.progs[pid].class == Class::MetaRead && self.sc.progs[pid].p1 & 0x100 != 0 && (case == Case::Interp || case == Case::Current) {
+            let p = &self.sc.progs[pid];
+            self.model.as_mut().unwrap().meta.insert(p.p0 as usize, p.p1 as u8);
+        }
+        if self.sc.progs[pid].class == Class::MetaStore && (case == Case::Interp || case == Case::Current) {
+            // the program ran (to its end or into its failing load): its byte is in the buffer now
+            let p = &self.sc.progs[pid];
+            self.model.as_mut().unwrap().meta.insert(p.p0 as usize, p.p1 as u8);
+            self.counters.inc(if obs.outcome.is_ok() { "meta_store_then_ok" } else { "meta_store_then_failed" });
+        }
         if let Some((size, pos)) = obs.overflow {
             self.counters.inc("private_buffer_overflow_seen");
             return Err(self.c10(cls(format!("history-dependent-panic-or-crash/execute-{}", engine.name())), at, format!("history VM: {} wrote at byte {} of the VM's own {}-byte metadata buffer; a fresh VM with the loaded program does not", engine.name(), pos, size)));
@@ -1055,7 +1095,7 @@ impl<'s> Runner<'s> {
             return Ok(());
         }
         if refs.iter().any(|r| Self::same_obs(&r.1, &obs)) {
-            if refs.len() == 2 {
+            if refs.len() == 2 && self.sc.progs[pid].class != Class::MetaRead {
                 if Self::same_obs(&refs[0].1, &obs) && !Self::same_obs(&refs[1].1, &obs) {
                     self.counters.inc("compiled_code_saw_new_helper_binding");
                 } else if !Self::same_obs(&refs[0].1, &obs) {
@@ -1335,6 +1375,7 @@ impl<'s> Runner<'s> {
                         if self.sc.kind == Kind::Fixed {
                             mm.offsets = (*doff, *eoff);
                         }
+                        mm.meta.clear();
                         if let Some(c) = mm.jit.as_mut() {
                             c.current = false;
                         }
